@@ -30,6 +30,7 @@ type Prog struct {
 	stored   map[*ssa.Global]bool
 	loadErrs []string
 	mirror   map[string]string // contract files taken from the mirror (missing in the repo)
+	findingRegions map[string]string // obligation name -> region of a listed known finding (all properties)
 }
 
 // LoadProg loads the given package patterns (relative to the repo module) with the verif tag and builds SSA.
